@@ -1,0 +1,628 @@
+//! Verification hooks. Compiled only with `--cfg torrent_bootstrap_verif`; without the flag this
+//! file is not part of the crate. Nothing here changes behaviour unless a harness installs a
+//! recorder (`fslog::install`) or a scheduler (`sched::install`): every shim type passes straight
+//! through to `std` otherwise.
+#![allow(dead_code)]
+
+/// Event log, fault plan and crash plan shared by the file-system shim.
+pub mod fslog {
+    use std::cell::Cell;
+    use std::sync::{Mutex, MutexGuard, OnceLock};
+
+    #[derive(Clone, Debug, Default)]
+    pub struct Plan {
+        /// Indices (in the sequence of counted file operations) that fail with an injected error.
+        pub fail_at: Vec<usize>,
+        /// Index of the counted file operation at which the process is cut off.
+        pub crash_at: Option<usize>,
+        /// For a write being cut off: number of bytes that still reach the file.
+        pub crash_partial: Option<usize>,
+        /// Where the log is dumped when the process is cut off.
+        pub crash_log: Option<String>,
+    }
+
+    pub struct State {
+        pub log: Vec<String>,
+        pub plan: Plan,
+        pub ops: usize,
+        pub next_handle: usize,
+        pub next_thread: usize,
+    }
+
+    fn cell() -> &'static Mutex<Option<State>> {
+        static G: OnceLock<Mutex<Option<State>>> = OnceLock::new();
+        G.get_or_init(|| Mutex::new(None))
+    }
+
+    thread_local! {
+        static PIECE: Cell<Option<(usize, u64)>> = Cell::new(None);
+        static THREAD: Cell<Option<usize>> = Cell::new(None);
+    }
+
+    pub fn install(plan: Plan) {
+        *cell().lock().unwrap() = Some(State { log: Vec::new(), plan, ops: 0, next_handle: 0, next_thread: 0 });
+    }
+
+    pub fn take() -> Option<State> {
+        cell().lock().unwrap().take()
+    }
+
+    pub fn lock() -> MutexGuard<'static, Option<State>> {
+        cell().lock().unwrap_or_else(|e| e.into_inner())
+    }
+
+    pub fn set_piece(piece: Option<(usize, u64)>) {
+        PIECE.with(|p| p.set(piece));
+    }
+
+    fn thread_id(state: &mut State) -> usize {
+        THREAD.with(|t| match t.get() {
+            Some(id) => id,
+            None => {
+                let id = state.next_thread;
+                state.next_thread += 1;
+                t.set(Some(id));
+                id
+            }
+        })
+    }
+
+    pub fn hex(bytes: &[u8]) -> String {
+        let mut out = String::with_capacity(bytes.len() * 2);
+        for byte in bytes {
+            out.push_str(&format!("{:02x}", byte));
+        }
+        out
+    }
+
+    /// What the shim has to do with the operation it is about to perform.
+    pub enum Verdict { Run, Fail, Crash(Option<usize>) }
+
+    impl State {
+        /// Counts one file operation and consults the plan.
+        pub fn next_op(&mut self) -> (usize, Verdict) {
+            let index = self.ops;
+            self.ops += 1;
+            if self.plan.crash_at == Some(index) {
+                return (index, Verdict::Crash(self.plan.crash_partial));
+            }
+            if self.plan.fail_at.contains(&index) {
+                return (index, Verdict::Fail);
+            }
+            (index, Verdict::Run)
+        }
+
+        /// Appends one record: `kind` and space-separated `key=value` fields.
+        pub fn record(&mut self, kind: &str, fields: &str) {
+            let thread = thread_id(self);
+            let piece = PIECE.with(|p| p.get());
+            let piece = match piece {
+                Some((id, start)) => format!("{}:{}", id, start),
+                None => "-".to_string(),
+            };
+            let line = format!("{} t={} piece={} {}", kind, thread, piece, fields);
+            self.log.push(line);
+        }
+
+        pub fn crash(&mut self) -> ! {
+            self.record("crash", "");
+            if let Some(path) = &self.plan.crash_log {
+                let _ = std::fs::write(path, self.log.join("\n") + "\n");
+            }
+            std::process::exit(77);
+        }
+    }
+
+    /// Records a free-form event if a recorder is installed.
+    pub fn note(kind: &str, fields: &str) {
+        if let Some(state) = lock().as_mut() {
+            state.record(kind, fields);
+        }
+    }
+
+    pub fn injected() -> std::io::Error {
+        std::io::Error::new(std::io::ErrorKind::Other, "verif: injected I/O failure")
+    }
+}
+
+/// Drop-in replacements for the parts of `std::fs` the crate uses.
+pub mod fs {
+    use super::fslog::{self, Verdict};
+    use std::io::{self, Read, Seek, SeekFrom, Write};
+    use std::path::{Path, PathBuf};
+
+    pub struct File {
+        inner: std::fs::File,
+        path: PathBuf,
+        handle: usize,
+    }
+
+    #[derive(Clone, Debug)]
+    pub struct OpenOptions {
+        read: bool,
+        write: bool,
+        create: bool,
+        create_new: bool,
+        truncate: bool,
+        append: bool,
+    }
+
+    fn path_field(path: &Path) -> String {
+        fslog::hex(path.as_os_str().as_encoded_bytes())
+    }
+
+    impl OpenOptions {
+        pub fn new() -> OpenOptions {
+            OpenOptions { read: false, write: false, create: false, create_new: false, truncate: false, append: false }
+        }
+        pub fn read(&mut self, value: bool) -> &mut Self { self.read = value; self }
+        pub fn write(&mut self, value: bool) -> &mut Self { self.write = value; self }
+        pub fn create(&mut self, value: bool) -> &mut Self { self.create = value; self }
+        pub fn create_new(&mut self, value: bool) -> &mut Self { self.create_new = value; self }
+        pub fn truncate(&mut self, value: bool) -> &mut Self { self.truncate = value; self }
+        pub fn append(&mut self, value: bool) -> &mut Self { self.append = value; self }
+
+        pub fn open<P: AsRef<Path>>(&self, path: P) -> io::Result<File> {
+            let path = path.as_ref();
+            let run = |options: &OpenOptions| {
+                std::fs::OpenOptions::new()
+                    .read(options.read)
+                    .write(options.write)
+                    .create(options.create)
+                    .create_new(options.create_new)
+                    .truncate(options.truncate)
+                    .append(options.append)
+                    .open(path)
+            };
+            let mut guard = fslog::lock();
+            let state = match guard.as_mut() {
+                Some(state) => state,
+                None => return run(self).map(|inner| File { inner, path: path.to_path_buf(), handle: usize::MAX }),
+            };
+            let (index, verdict) = state.next_op();
+            let handle = state.next_handle;
+            state.next_handle += 1;
+            let flags = format!("r={} w={} c={} cn={} tr={} ap={}", self.read as u8, self.write as u8, self.create as u8, self.create_new as u8, self.truncate as u8, self.append as u8);
+            let result = match verdict {
+                Verdict::Run => run(self),
+                Verdict::Fail => Err(fslog::injected()),
+                Verdict::Crash(_) => state.crash(),
+            };
+            let existed = match &result { Err(e) if e.kind() == io::ErrorKind::NotFound => 0, _ => 1 };
+            state.record("open", &format!("op={} h={} path={} {} ok={} found={}", index, handle, path_field(path), flags, result.is_ok() as u8, existed));
+            result.map(|inner| File { inner, path: path.to_path_buf(), handle })
+        }
+    }
+
+    impl File {
+        pub fn open<P: AsRef<Path>>(path: P) -> io::Result<File> {
+            OpenOptions::new().read(true).open(path)
+        }
+
+        pub fn metadata(&self) -> io::Result<std::fs::Metadata> {
+            let mut guard = fslog::lock();
+            let state = match guard.as_mut() {
+                Some(state) if self.handle != usize::MAX => state,
+                _ => return self.inner.metadata(),
+            };
+            let (index, verdict) = state.next_op();
+            let result = match verdict {
+                Verdict::Run => self.inner.metadata(),
+                Verdict::Fail => Err(fslog::injected()),
+                Verdict::Crash(_) => state.crash(),
+            };
+            let detail = match &result {
+                Ok(metadata) => {
+                    use std::os::unix::fs::MetadataExt;
+                    format!("len={} dir={} ino={} dev={}", metadata.len(), metadata.is_dir() as u8, metadata.ino(), metadata.dev())
+                }
+                Err(_) => String::new(),
+            };
+            state.record("fstat", &format!("op={} h={} ok={} {}", index, self.handle, result.is_ok() as u8, detail));
+            result
+        }
+
+        pub fn set_len(&self, size: u64) -> io::Result<()> {
+            let mut guard = fslog::lock();
+            let state = match guard.as_mut() {
+                Some(state) if self.handle != usize::MAX => state,
+                _ => return self.inner.set_len(size),
+            };
+            let (index, verdict) = state.next_op();
+            let result = match verdict {
+                Verdict::Run => self.inner.set_len(size),
+                Verdict::Fail => Err(fslog::injected()),
+                Verdict::Crash(_) => state.crash(),
+            };
+            state.record("set_len", &format!("op={} h={} path={} len={} ok={}", index, self.handle, path_field(&self.path), size, result.is_ok() as u8));
+            result
+        }
+    }
+
+    impl Read for File {
+        fn read(&mut self, buf: &mut [u8]) -> io::Result<usize> {
+            let mut guard = fslog::lock();
+            let state = match guard.as_mut() {
+                Some(state) if self.handle != usize::MAX => state,
+                _ => return self.inner.read(buf),
+            };
+            let (index, verdict) = state.next_op();
+            let result = match verdict {
+                Verdict::Run => self.inner.read(buf),
+                Verdict::Fail => Err(fslog::injected()),
+                Verdict::Crash(_) => state.crash(),
+            };
+            let data = match &result { Ok(count) => fslog::hex(&buf[..*count]), Err(_) => String::new() };
+            state.record("read", &format!("op={} h={} want={} ok={} data={}", index, self.handle, buf.len(), result.is_ok() as u8, data));
+            result
+        }
+    }
+
+    impl Seek for File {
+        fn seek(&mut self, position: SeekFrom) -> io::Result<u64> {
+            let mut guard = fslog::lock();
+            let state = match guard.as_mut() {
+                Some(state) if self.handle != usize::MAX => state,
+                _ => return self.inner.seek(position),
+            };
+            let (index, verdict) = state.next_op();
+            let result = match verdict {
+                Verdict::Run => self.inner.seek(position),
+                Verdict::Fail => Err(fslog::injected()),
+                Verdict::Crash(_) => state.crash(),
+            };
+            let target = match position {
+                SeekFrom::Start(offset) => format!("start:{}", offset),
+                SeekFrom::End(offset) => format!("end:{}", offset),
+                SeekFrom::Current(offset) => format!("cur:{}", offset),
+            };
+            state.record("seek", &format!("op={} h={} to={} ok={}", index, self.handle, target, result.is_ok() as u8));
+            result
+        }
+    }
+
+    impl Write for File {
+        fn write(&mut self, buf: &[u8]) -> io::Result<usize> {
+            let mut guard = fslog::lock();
+            let state = match guard.as_mut() {
+                Some(state) if self.handle != usize::MAX => state,
+                _ => return self.inner.write(buf),
+            };
+            let (index, verdict) = state.next_op();
+            let position = self.inner.stream_position().unwrap_or(u64::MAX);
+            let result = match verdict {
+                Verdict::Run => self.inner.write(buf),
+                Verdict::Fail => Err(fslog::injected()),
+                Verdict::Crash(partial) => {
+                    let count = partial.unwrap_or(0).min(buf.len());
+                    let _ = self.inner.write_all(&buf[..count]);
+                    state.record("write", &format!("op={} h={} path={} at={} ok=1 cut=1 data={}", index, self.handle, path_field(&self.path), position, fslog::hex(&buf[..count])));
+                    state.crash()
+                }
+            };
+            let data = match &result { Ok(count) => fslog::hex(&buf[..*count]), Err(_) => String::new() };
+            state.record("write", &format!("op={} h={} path={} at={} ok={} cut=0 data={}", index, self.handle, path_field(&self.path), position, result.is_ok() as u8, data));
+            result
+        }
+
+        fn flush(&mut self) -> io::Result<()> {
+            self.inner.flush()
+        }
+    }
+
+    pub fn create_dir_all<P: AsRef<Path>>(path: P) -> io::Result<()> {
+        let path = path.as_ref();
+        let mut guard = fslog::lock();
+        let state = match guard.as_mut() {
+            Some(state) => state,
+            None => return std::fs::create_dir_all(path),
+        };
+        let (index, verdict) = state.next_op();
+        let result = match verdict {
+            Verdict::Run => std::fs::create_dir_all(path),
+            Verdict::Fail => Err(fslog::injected()),
+            Verdict::Crash(_) => state.crash(),
+        };
+        state.record("mkdir_all", &format!("op={} path={} ok={}", index, path_field(path), result.is_ok() as u8));
+        result
+    }
+
+    pub fn metadata<P: AsRef<Path>>(path: P) -> io::Result<std::fs::Metadata> {
+        let path = path.as_ref();
+        let mut guard = fslog::lock();
+        let state = match guard.as_mut() {
+            Some(state) => state,
+            None => return std::fs::metadata(path),
+        };
+        let (index, verdict) = state.next_op();
+        let result = match verdict {
+            Verdict::Run => std::fs::metadata(path),
+            Verdict::Fail => Err(fslog::injected()),
+            Verdict::Crash(_) => state.crash(),
+        };
+        let detail = match &result { Ok(metadata) => format!("dir={}", metadata.is_dir() as u8), Err(_) => String::new() };
+        state.record("stat", &format!("op={} path={} ok={} {}", index, path_field(path), result.is_ok() as u8, detail));
+        result
+    }
+}
+
+/// Deterministic scheduler: every lock, unlock, spawn, join and thread exit is a scheduling point
+/// at which exactly one enabled thread is chosen to continue.
+pub mod sched {
+    use std::cell::Cell;
+    use std::collections::HashMap;
+    use std::sync::{Condvar, Mutex, OnceLock};
+
+    #[derive(Clone, Debug, PartialEq)]
+    pub enum Op { Start, Lock(usize), TryLock(usize), Unlock(usize), Join(usize), Exit }
+
+    #[derive(Clone, Debug, PartialEq)]
+    enum TState { Running, Parked(Op), Finished }
+
+    pub struct Sched {
+        threads: Vec<TState>,
+        owner: HashMap<usize, Option<usize>>,
+        next_lock: usize,
+        chosen: Option<usize>,
+        rng: u64,
+        /// Explicit choices (index into the sorted enabled set, modulo its size), used before the generator.
+        pub script: Vec<usize>,
+        pub script_position: usize,
+        /// (thread, operation, outcome, enabled threads at the moment of the choice)
+        pub log: Vec<(usize, Op, bool, Vec<usize>)>,
+        last_enabled: Vec<usize>,
+        pub deadlock: bool,
+    }
+
+    struct Global { m: Mutex<Option<Sched>>, cv: Condvar }
+
+    fn g() -> &'static Global {
+        static G: OnceLock<Global> = OnceLock::new();
+        G.get_or_init(|| Global { m: Mutex::new(None), cv: Condvar::new() })
+    }
+
+    thread_local! { static TID: Cell<Option<usize>> = Cell::new(None); }
+
+    pub fn install(seed: u64, script: Vec<usize>) {
+        let mut s = g().m.lock().unwrap();
+        *s = Some(Sched {
+            threads: vec![TState::Running], owner: HashMap::new(), next_lock: 0, chosen: None,
+            rng: seed | 1, script, script_position: 0, log: vec![], last_enabled: vec![], deadlock: false,
+        });
+        TID.with(|t| t.set(Some(0)));
+    }
+
+    pub fn uninstall() -> Option<Sched> {
+        TID.with(|t| t.set(None));
+        g().m.lock().unwrap_or_else(|e| e.into_inner()).take()
+    }
+
+    pub fn active() -> bool { TID.with(|t| t.get().is_some()) }
+
+    pub fn current() -> Option<usize> { TID.with(|t| t.get()) }
+
+    pub fn new_lock_id() -> usize {
+        if !active() { return usize::MAX; }
+        let mut s = g().m.lock().unwrap();
+        match s.as_mut() {
+            Some(s) => { let id = s.next_lock; s.next_lock += 1; s.owner.insert(id, None); id }
+            None => usize::MAX,
+        }
+    }
+
+    pub fn new_thread() -> usize {
+        let mut s = g().m.lock().unwrap();
+        let s = s.as_mut().unwrap();
+        s.threads.push(TState::Parked(Op::Start));
+        s.threads.len() - 1
+    }
+
+    pub fn adopt(tid: usize) { TID.with(|t| t.set(Some(tid))); }
+
+    fn enabled(s: &Sched, op: &Op) -> bool {
+        match op {
+            Op::Lock(l) => s.owner[l].is_none(),
+            Op::Join(t) => s.threads[*t] == TState::Finished,
+            _ => true,
+        }
+    }
+
+    fn pick(s: &mut Sched) {
+        let candidates: Vec<usize> = (0..s.threads.len())
+            .filter(|&i| matches!(&s.threads[i], TState::Parked(op) if enabled(s, op)))
+            .collect();
+        if candidates.is_empty() {
+            if s.threads.iter().any(|t| matches!(t, TState::Parked(_))) { s.deadlock = true; }
+            return;
+        }
+        let choice = if s.script_position < s.script.len() {
+            let c = s.script[s.script_position];
+            s.script_position += 1;
+            c % candidates.len()
+        } else {
+            s.rng ^= s.rng << 13; s.rng ^= s.rng >> 7; s.rng ^= s.rng << 17;
+            (s.rng % candidates.len() as u64) as usize
+        };
+        s.chosen = Some(candidates[choice]);
+        s.last_enabled = candidates;
+    }
+
+    /// Park at a scheduling point; returns the outcome (for `TryLock`: whether it was acquired).
+    pub fn point(op: Op) -> bool {
+        let tid = match TID.with(|t| t.get()) { Some(t) => t, None => return true };
+        let gl = g();
+        let mut guard = gl.m.lock().unwrap();
+        {
+            let s = guard.as_mut().unwrap();
+            s.threads[tid] = TState::Parked(op.clone());
+            if !s.threads.iter().any(|t| *t == TState::Running) && s.chosen.is_none() { pick(s); }
+            gl.cv.notify_all();
+        }
+        loop {
+            let s = guard.as_mut().unwrap();
+            if s.deadlock { drop(guard); panic!("verif: deadlock detected"); }
+            if s.chosen == Some(tid) { break; }
+            guard = gl.cv.wait(guard).unwrap();
+        }
+        let s = guard.as_mut().unwrap();
+        s.chosen = None;
+        let mut outcome = true;
+        match &op {
+            Op::Lock(l) => { s.owner.insert(*l, Some(tid)); }
+            Op::TryLock(l) => { if s.owner[l].is_none() { s.owner.insert(*l, Some(tid)); } else { outcome = false; } }
+            Op::Unlock(l) => { s.owner.insert(*l, None); }
+            _ => {}
+        }
+        let enabled_set = std::mem::take(&mut s.last_enabled);
+        s.log.push((tid, op.clone(), outcome, enabled_set));
+        if op == Op::Exit {
+            s.threads[tid] = TState::Finished;
+            pick(s);
+            gl.cv.notify_all();
+        } else {
+            s.threads[tid] = TState::Running;
+        }
+        drop(guard);
+        super::fslog::note("sched", &format!("tid={} op={:?} res={}", tid, op, outcome as u8));
+        outcome
+    }
+}
+
+pub mod sync {
+    use super::sched::{self, Op};
+    use std::ops::{Deref, DerefMut};
+    use std::sync::{LockResult, TryLockError, TryLockResult};
+    pub use std::sync::Arc;
+
+    pub struct Mutex<T> { inner: std::sync::Mutex<T>, id: usize }
+    pub struct MutexGuard<'a, T> { inner: Option<std::sync::MutexGuard<'a, T>>, id: usize }
+
+    impl<T> Mutex<T> {
+        pub fn new(value: T) -> Self { Mutex { inner: std::sync::Mutex::new(value), id: sched::new_lock_id() } }
+
+        pub fn lock(&self) -> LockResult<MutexGuard<'_, T>> {
+            if self.id != usize::MAX && sched::active() {
+                sched::point(Op::Lock(self.id));
+            }
+            match self.inner.lock() {
+                Ok(guard) => Ok(MutexGuard { inner: Some(guard), id: self.id }),
+                Err(poisoned) => Err(std::sync::PoisonError::new(MutexGuard { inner: Some(poisoned.into_inner()), id: self.id })),
+            }
+        }
+
+        pub fn try_lock(&self) -> TryLockResult<MutexGuard<'_, T>> {
+            if self.id != usize::MAX && sched::active() {
+                if sched::point(Op::TryLock(self.id)) {
+                    Ok(MutexGuard { inner: Some(self.inner.lock().unwrap()), id: self.id })
+                } else {
+                    Err(TryLockError::WouldBlock)
+                }
+            } else {
+                match self.inner.try_lock() {
+                    Ok(guard) => Ok(MutexGuard { inner: Some(guard), id: self.id }),
+                    Err(TryLockError::WouldBlock) => Err(TryLockError::WouldBlock),
+                    Err(TryLockError::Poisoned(poisoned)) => Err(TryLockError::Poisoned(std::sync::PoisonError::new(MutexGuard { inner: Some(poisoned.into_inner()), id: self.id }))),
+                }
+            }
+        }
+    }
+
+    impl<'a, T> Deref for MutexGuard<'a, T> { type Target = T; fn deref(&self) -> &T { self.inner.as_ref().unwrap() } }
+    impl<'a, T> DerefMut for MutexGuard<'a, T> { fn deref_mut(&mut self) -> &mut T { self.inner.as_mut().unwrap() } }
+    impl<'a, T> Drop for MutexGuard<'a, T> {
+        fn drop(&mut self) {
+            drop(self.inner.take());
+            if self.id != usize::MAX && sched::active() && !std::thread::panicking() {
+                sched::point(Op::Unlock(self.id));
+            }
+        }
+    }
+}
+
+pub mod thread {
+    use super::sched::{self, Op};
+
+    pub struct JoinHandle<T> { inner: std::thread::JoinHandle<T>, tid: Option<usize> }
+
+    pub fn spawn<F, T>(f: F) -> JoinHandle<T> where F: FnOnce() -> T + Send + 'static, T: Send + 'static {
+        if sched::active() {
+            let tid = sched::new_thread();
+            let inner = std::thread::spawn(move || {
+                sched::adopt(tid);
+                sched::point(Op::Start);
+                let result = f();
+                sched::point(Op::Exit);
+                result
+            });
+            JoinHandle { inner, tid: Some(tid) }
+        } else {
+            JoinHandle { inner: std::thread::spawn(f), tid: None }
+        }
+    }
+
+    impl<T> JoinHandle<T> {
+        pub fn join(self) -> std::thread::Result<T> {
+            if let Some(tid) = self.tid { sched::point(Op::Join(tid)); }
+            self.inner.join()
+        }
+    }
+}
+
+/// One-line observation points called from the crate under the flag.
+pub mod probe {
+    use super::fslog;
+    use crate::orchestrator::OrchestrationPiece;
+
+    fn piece_key(piece: &OrchestrationPiece) -> Option<(usize, u64)> {
+        piece.files.first().map(|file| (file.metadata.id, file.read_start_position))
+    }
+
+    fn piece_fields(piece: &OrchestrationPiece) -> String {
+        let segments: Vec<String> = piece.files.iter()
+            .map(|file| format!("{}:{}:{}", file.metadata.id, file.read_start_position, file.read_length))
+            .collect();
+        format!("hash={} segs={}", fslog::hex(&piece.hash), segments.join(","))
+    }
+
+    pub struct PieceScope;
+    impl Drop for PieceScope { fn drop(&mut self) { fslog::set_piece(None); } }
+
+    pub fn enter_piece(piece: &OrchestrationPiece) -> PieceScope {
+        fslog::set_piece(piece_key(piece));
+        fslog::note("piece_begin", &piece_fields(piece));
+        PieceScope
+    }
+
+    pub fn piece_result(result: &std::io::Result<bool>) {
+        let outcome = match result { Ok(true) => "success", Ok(false) => "failed", Err(_) => "fault" };
+        fslog::note("piece_end", &format!("outcome={}", outcome));
+    }
+
+    pub fn work(items: &[OrchestrationPiece]) {
+        for (index, piece) in items.iter().enumerate() {
+            fslog::note("work", &format!("index={} {}", index, piece_fields(piece)));
+        }
+    }
+
+    pub fn queues(tag: &str, active: usize, queues: &[Vec<(usize, u64)>]) {
+        let rendered: Vec<String> = queues.iter()
+            .map(|queue| queue.iter().map(|(id, start)| format!("{}:{}", id, start)).collect::<Vec<_>>().join(","))
+            .collect();
+        fslog::note("queues", &format!("tag={} active={} q={}", tag, active, rendered.join("|")));
+    }
+
+    pub fn queue_keys(queue: &[OrchestrationPiece]) -> Vec<(usize, u64)> {
+        queue.iter().filter_map(piece_key).collect()
+    }
+}
+
+/// Crate-private items re-exported for component-level comparison with the model.
+pub mod api {
+    pub use crate::finder::{
+        add_export_paths, build_torrent_metadata_table, fix_export_file_lengths, get_unique_file_lengths,
+        populate_metadata_searches, FileCache, TorrentMetadataEntry,
+    };
+    pub use crate::orchestrator::{OrchestrationPiece, OrchestrationPieceFile};
+    pub use crate::solver::{balance, run, PieceMatchResult, PieceSolver};
+    pub use crate::writer::FileWriter;
+}
